@@ -362,9 +362,13 @@ class ODE:
         if not isinstance(__o, ODE):
             return False
 
+        # The order in which the components were written down carries no
+        # meaning (equations are reorderable), so compare them as a set
         return (
             __o.comments == self.comments
-            and __o.components == self.components
+            and len(__o.components) == len(self.components)
+            and all(comp in __o.components for comp in self.components)
+            and all(comp in self.components for comp in __o.components)
             and __o.name == self.name
         )
 
